@@ -27,9 +27,9 @@ DEFAULT_FILL_VALUE = {
 
 CAST_TO = {
     # "nansum": {np.bool_: np.int64},
-    "nanmean": {np.int_: np.float64},
-    "nanvar": {np.int_: np.float64},
-    "nanstd": {np.int_: np.float64},
+    "nanmean": {np.integer: np.float64},
+    "nanvar": {np.integer: np.float64},
+    "nanstd": {np.integer: np.float64},
     "nanfirst": {np.datetime64: np.int64, np.timedelta64: np.int64},
     "nanlast": {np.datetime64: np.int64, np.timedelta64: np.int64},
     "nancount": {np.datetime64: np.int64, np.timedelta64: np.int64},
